@@ -6,6 +6,7 @@
 //
 // usage: db_explore <catalogue.json> <bounds.json> <states.ndjson> <trans.ndjson>
 #include "vjson.hpp"
+#include "Enum/EOperator.hpp"
 #include "Db/Db.hpp"
 #include "Db/DbGrid.hpp"
 #include "Enum/ELoc.hpp"
@@ -189,6 +190,13 @@ static bool withinBounds(const Value& c, const Db* db)
   if (op == "addSelection" || op == "addColumns")
     return db->getColumnNumber() + 1 <= MAXCOLS && db->getUIDMaxNumber() + 1 <= MAXUID && db->getSampleNumber() >= 1;
   if (op == "addSamples") return db->getSampleNumber() + c.at("n").i() <= MAXNECH;
+  if (op == "updArray")
+  {
+    int iech = c.at("iech").i(), uid = c.at("uid").i();
+    if (iech < 0 || iech >= db->getSampleNumber() || db->getColIdxByUID(uid) < 0) return true;
+    double v = db->getArray(iech, uid);
+    return FFFF(v) || v < 10.;
+  }
   return true;
 }
 
@@ -228,6 +236,25 @@ static Db* apply(const Value& c, Db* db)
     VectorDouble col(db->getSampleNumber());
     for (int k = 0; k < (int)col.size(); k++) col[k] = c.at("val").i() + k;
     db->setColumnByUID(col, c.at("uid").i());
+  }
+  else if (op == "setArrayBySample")
+  {
+    VectorDouble row(db->getColumnNumber());
+    for (int k = 0; k < (int)row.size(); k++) row[k] = c.at("val").i() + k;
+    db->setArrayBySample(c.at("iech").i(), row);
+  }
+  else if (op == "setAllColumns")
+  {
+    VectorVectorDouble tabs(db->getColumnNumber(), VectorDouble(db->getSampleNumber()));
+    for (int k = 0; k < (int)tabs.size(); k++) for (int i = 0; i < (int)tabs[k].size(); i++) tabs[k][i] = c.at("val").i() + 10 * k + i;
+    db->setAllColumns(tabs);
+  }
+  else if (op == "updArray") db->updArray(c.at("iech").i(), c.at("uid").i(), EOperator::ADD, c.at("val").i());
+  else if (op == "setColumnByColIdx")
+  {
+    VectorDouble col(db->getSampleNumber());
+    for (int k = 0; k < (int)col.size(); k++) col[k] = c.at("val").i() + k;
+    db->setColumnByColIdx(col, c.at("col").i());
   }
   else if (op == "duplicateColumnByUID") db->duplicateColumnByUID(c.at("uid").i(), c.at("uid2").i());
   else if (op == "copyByUID") db->copyByUID(c.at("uid").i(), c.at("uid2").i());
